@@ -76,8 +76,12 @@ CLAIMED.update({
             "BorrowedTerm::to_owned and From<&OwnedTerm> are executed from the MIR and must carry the input identifier record itself (a "
             "rebuilt identifier has lost its bytes) - this covers the Reference variant, on which no CBMC conversion/encode harness finishes.",
             E1T + "; MIR-level arm check for the conversions with native replay"),
-    "C13": ("E1 kani-cbmc", "9.3 C13", "decode_borrowed vs decode on the reference encodings of the C01 shapes and on every proper prefix (symbolic cut): acceptance "
-            "agrees, to_owned() has the same variant and denotes the same value, error offsets lie within the input.", E1T),
+    "C13": ("E2 mir-smt (stateful)", "9.3 C13", "Leaf-tag clause only: both copies of each leaf parser (binary, bit-binary, string, small/large big, the atom tags, "
+            "small integer, integer, new float) are executed from their MIR by the stateful interpreter on the same abstract input (symbolic length, "
+            "shared field symbols per offset, shared UTF-8 validity); z3 decides that no owned path and zero-copy path with different outcomes "
+            "(accept / reject / panic) are jointly satisfiable and that both hand the same sign to BigInt::new. Container tags, identifiers, "
+            "to_owned and the reported error offset are outside (decode_borrowed exhausts memory under CBMC).",
+            "MIR->SMT symbolic execution of both parser copies on a shared abstract input + z3 per path pair; native replay on every prefix of a crafted input"),
     "C14": ("E2 mir-smt (stateful)", "9.3 C14", "Writer clause only: the MIR of encode_with_dist_header_multi, collect_atoms, encode_term_with_cache / encode_term_impl (Atom arm) "
             "and encode_atom_impl runs in the stateful MIR interpreter on 1..3 atom terms whose identities and byte lengths (0..131071) are symbolic "
             "(terms may coincide); the produced buffer (8-bit expressions + opaque atom-text chunks) is read by a reference reader of the documented "
@@ -89,15 +93,13 @@ CLAIMED.update({
     "C15": ("E1 kani-cbmc", "9.3 C15", "from_term(to_term(v)) == v for all values of i8..i64, u8..u64, f32, f64, bool, char, (), Option<i64>, (i64,u8); wire trip: "
             "reference bytes of the value's width class -> real decoder -> real deserializer must give the value back.", E1T),
 })
-for _k in ("C13",):      # built, but no harness finishes: not claimed (see NA)
+for _k in ():
     CLAIMED.pop(_k, None)
 NA = {
     "C06": "the receive dispatch is inlined in `async fn Connection::receive_message` over FramedTransport::read (tokio net + timer): any harness "
            "from which it is reachable makes Kani's compiler fail (runtime-context thread-local -> catch_unwind), and an async stub of the "
            "transport cannot be constructed outside tokio; the synchronous components it calls are covered by C02 (fragment headers), C09 "
            "(assembler) and C01/C03 (terms), but exactly-once/in-order delivery across calls is not decidable with this technique here",
-    "C13": "decode_borrowed (parse_*_borrowed with the ParsingContext path bookkeeping) exhausts memory under CBMC even alone on a 3-byte input "
-           "(all 40 harnesses killed at >6 GB), so neither the two-decoder comparison nor the chain through the reference finishes",
     "C07": "frame assembly is inline in async fns writing to a concrete tokio OwnedWriteHalf; no seam a symbolic executor can observe; "
            "atomicity under concurrent senders is tokio-Mutex scheduling (Kani has no concurrency, no sockets)",
     "C17": "RPC correlation lives in async fns over DashMap/oneshot/timeout and a spawned receiver task on TCP; quantifies over task "
@@ -117,7 +119,7 @@ def main():
     claimed = dict(CLAIMED)
     claimed.update({k: tuple(v) for k, v in extra.get("claimed", {}).items()})
     # only properties whose timings are calibrated (i.e. whose check has been run to completion here) are registered
-    claimed = {k: v for k, v in claimed.items() if k in ("C16", "C09", "C14") or os.path.exists(os.path.join(V, "driver", "timings", k + ".json"))}
+    claimed = {k: v for k, v in claimed.items() if k in ("C16", "C09", "C14", "C13") or os.path.exists(os.path.join(V, "driver", "timings", k + ".json"))}
     na = dict(NA)
     na.update(extra.get("not_applicable", {}))
     checks = []
